@@ -121,27 +121,30 @@ fn classify(sch: &Sch, an: &Analyzers, rq: &Req, views: &[DocView], engine: &BTr
     (true, true, false),
     (true, true, true),
   ];
-  let mut has_collapse = rq.q.any(&|n| n.collapses(sch, an));
-  if has_collapse && !rq.q.any(&|n| matches!(n, Q::Wildcard { .. }) && n.collapses(sch, an)) {
-    // only regex nodes collapse: D2 and D3 can produce the same hit set (`rust?` -> exact `rust` vs
-    // candidates restricted to prefix `rust`). Ask the engine again with collapse-proof patterns; if
-    // nothing changes the collapse is not what we are looking at.
+  let wildcard_collapse = rq.q.any(&|n| matches!(n, Q::Wildcard { .. }) && n.collapses(sch, an));
+  let mut regex_collapse = rq.q.any(&|n| matches!(n, Q::Regex { .. }) && n.collapses(sch, an));
+  if regex_collapse {
+    // D2 and D3 can produce the same hit set for a regex (`rust?` -> exact `rust` vs candidates
+    // restricted to prefix `rust`). Ask the engine again with collapse-proof patterns (`rust?.{0}`
+    // accepts the same strings but is never reduced to one token); if nothing changes, the collapse of
+    // regex patterns is not what is observed here.
     let mut probe = rq.clone();
     probe.q = rq.q.collapse_proof(sch, an);
     if probe.q != rq.q {
       if let Ok((res, _)) = run_engine(reader, &probe) {
         if res == *engine {
-          has_collapse = false;
+          regex_collapse = false;
         }
       }
     }
   }
+  let has_collapse = wildcard_collapse || regex_collapse;
   let has_overreach = rq.q.any(&|n| n.prefix_overreach(sch, an, false) || n.prefix_overreach(sch, an, true));
   for (d2, d3, d1) in combos {
     if (d2 && !has_collapse) || (d3 && !has_overreach) {
       continue;
     }
-    let env = Env { sch, an, default_fields: rq.default_fields(sch), fuzzy: rq.fuzzy.clone(), emu_collapse: d2, emu_prefix: d3 };
+    let env = Env { sch, an, default_fields: rq.default_fields(sch), fuzzy: rq.fuzzy.clone(), emu_collapse: d2, emu_prefix: d3, emu_collapse_regex: regex_collapse };
     let o = compare(&env, rq, views, engine);
     let ok = if d1 {
       // D1 predicate: nothing unexpected; the query has scored term leaves; every missing document
@@ -186,7 +189,7 @@ fn recheck(dir: &Path, c: &Case, rq: &Req) -> Option<(Vec<&'static str>, Outcome
   let reader = b.index.reader().ok()?;
   let views: Vec<DocView> = b.live.values().map(|d| DocView::build(c.sch, c.an, d)).collect();
   let (engine, _) = run_engine(&reader, rq).ok()?;
-  let env = Env { sch: c.sch, an: c.an, default_fields: rq.default_fields(c.sch), fuzzy: rq.fuzzy.clone(), emu_collapse: false, emu_prefix: false };
+  let env = Env { sch: c.sch, an: c.an, default_fields: rq.default_fields(c.sch), fuzzy: rq.fuzzy.clone(), emu_collapse: false, emu_prefix: false, emu_collapse_regex: true };
   let o = compare(&env, rq, &views, &engine);
   if o.missing.is_empty() && o.unexpected.is_empty() {
     return None;
@@ -355,7 +358,7 @@ fn main() {
       reqs.push((r, "word"));
     }
     for (rq, family) in reqs.iter() {
-      let env = Env { sch: &sch, an: &an, default_fields: rq.default_fields(&sch), fuzzy: rq.fuzzy.clone(), emu_collapse: false, emu_prefix: false };
+      let env = Env { sch: &sch, an: &an, default_fields: rq.default_fields(&sch), fuzzy: rq.fuzzy.clone(), emu_collapse: false, emu_prefix: false, emu_collapse_regex: true };
       let (engine, dup) = match run_engine(&reader, rq) {
         Ok(x) => x,
         Err(kind) => {
